@@ -2,7 +2,7 @@
    oracle/Prop equivalence, trace admissibility, and which labels count as
    session-ending events. *)
 From Coq Require Import List Bool Arith Lia.
-From Martian.C10 Require Import Gen_H2Const Model Proofs_Measure Proofs_Inv Proofs_Live.
+From Martian.C10 Require Import Gen_H2Const Model Proofs_Measure Proofs_Inv Proofs_Tac Proofs_Live Proofs_Partial.
 Import ListNotations.
 
 (* ---- witness runs ---- *)
@@ -39,6 +39,23 @@ Definition w_full_then_end : list label :=
 (* ... and then the server goes away as well *)
 Definition w_full_both_closed : list label := w_full_then_end ++ [EClose Sv].
 
+(* One client frame is on its way to a server that has stopped reading: the client->server
+   writer is blocked in Write.  The server half-closes: the server->client direction ends and
+   closes done, the client->server reader leaves its select and waits in `readerDone <-`.
+   Only then does the blocked write fail (the server goes away). *)
+Definition w_blocked_write_fails_late : list label :=
+  w_idle
+  ++ [ESend Cl (KOwn false 1); IRead Cl; ITake Cl false; ILock Cl; ISend Cl; IUnlock Cl false]
+  ++ [EStall Sv; IWriteBlock Cl]
+  ++ [EHalf Sv; IReadEnd Sv; ITake Sv false; IHandshake Sv; IStop Sv; ISelDone Cl]
+  ++ [EClose Sv; IWriteUnblock Cl true].
+
+Definition cfg_unbuffered_werr : cfg := mkCfg true true true false.
+
+Definition handoff_deadlock (s : state) : bool :=
+  match rd (dc s), wr (dc s) with RDoneSend, WErrSend => true | _, _ => false end
+  && negb (returned s) && negb (blocks s Cl) && negb (blocks s Sv).
+
 Definition bad_final (c : cfg) (ls : list label) (p : state -> bool) : bool :=
   match run c init ls with
   | Some s => quiescentb c s && trig s && p s
@@ -50,7 +67,7 @@ Definition not_returned (s : state) : bool := negb (returned s).
 Lemma refute_returns_orig : bad_final cfg_orig w_client_close not_returned = true.
 Proof. vm_compute. reflexivity. Qed.
 
-Lemma refute_returns_no_done : bad_final (mkCfg true false true) w_client_close not_returned = true.
+Lemma refute_returns_no_done : bad_final (mkCfg true false true true) w_client_close not_returned = true.
 Proof. vm_compute. reflexivity. Qed.
 
 Lemma refute_upstream_orig :
@@ -58,7 +75,7 @@ Lemma refute_upstream_orig :
 Proof. vm_compute. reflexivity. Qed.
 
 Lemma refute_upstream_no_close :
-  bad_final (mkCfg false true true) w_closing (fun s => returned s && negb (sc_closed s)) = true.
+  bad_final (mkCfg false true true true) w_closing (fun s => returned s && negb (sc_closed s)) = true.
 Proof. vm_compute. reflexivity. Qed.
 
 Lemma refute_goroutine_orig :
@@ -73,7 +90,19 @@ Lemma refute_emit_orig : bad_final cfg_orig w_full_both_closed stuck_in_emit = t
 Proof. vm_compute. reflexivity. Qed.
 
 (* with the done signal but a bare `output <- f`, the same run still wedges *)
-Lemma refute_emit_no_abort : bad_final (mkCfg true true false) w_full_both_closed stuck_in_emit = true.
+Lemma refute_emit_no_abort : bad_final (mkCfg true true false true) w_full_both_closed stuck_in_emit = true.
+Proof. vm_compute. reflexivity. Qed.
+
+(* writerErr unbuffered: writer waits to hand over its error, reader waits for the writer: for ever *)
+Lemma refute_unbuffered_werr : bad_final cfg_unbuffered_werr w_blocked_write_fails_late handoff_deadlock = true.
+Proof. vm_compute. reflexivity. Qed.
+
+(* with the buffered writerErr of the repaired relay the same run unwinds *)
+Lemma fixed_escapes_late_write_failure :
+  match run cfg_fixed init (w_blocked_write_fails_late ++ [IHandshake Cl; IStop Cl; IJoin; ICallerClose; IReadEnd Cl]) with
+  | Some s => quiescentb cfg_fixed s && c10_ok (obs_of s)
+  | None => false
+  end = true.
 Proof. vm_compute. reflexivity. Qed.
 
 (* the repaired relay gets out of the same situation *)
@@ -122,7 +151,7 @@ Definition ending_label (l : label) : bool :=
   | EClose _ | EHalf _ | EClosing => true
   | ESend _ KBad => true
   | IPreface false => true
-  | ITake _ true | IUnlock _ true => true
+  | ITake _ true | IUnlock _ true | IWriteUnblock _ true => true
   | _ => false
   end.
 
